@@ -669,6 +669,15 @@ func genBind(r *rand.Rand, id string) *Case {
 	in = append(in, msgDescribe('P', pname)...)
 	in = append(in, msgExecute(pname, 0)...)
 	in = append(in, msgSync()...)
+	if r.Intn(3) == 0 {
+		// the same portal executed again, behind the Sync or (unnamed portals do not survive a Sync in
+		// PostgreSQL, here they do) in a batch of its own: same parameters, same formats
+		in = append(in, msgExecute(pname, 0)...)
+		if r.Intn(2) == 0 {
+			in = append(in, msgExecute(pname, 0)...)
+		}
+		in = append(in, msgSync()...)
+	}
 	c.In = in
 	c.Cuts = randCuts(r, len(in))
 	// expectations
@@ -1618,7 +1627,7 @@ func genLifecycle(r *rand.Rand, id string) *Case {
 	for i := range mw {
 		mw[i] = 'o'
 		if fail < 0 && r.Intn(6) == 0 {
-			mw[i] = 'f'
+			mw[i] = "fn"[r.Intn(2)]
 			fail = i
 		}
 	}
@@ -1737,9 +1746,23 @@ func genMulti(r *rand.Rand, id string) *Case {
 	// overlapping; (2) connection 0 leaves a failed extended-query batch open (no Sync yet) while
 	// the others run complete cycles; (3) parameters of an array type decoded concurrently (the
 	// codec memoizes its plan in the type map: a shared map shows up under the race detector)
-	variant := r.Intn(8)
+	variant := r.Intn(10)
 	if variant == 1 {
 		c.Auth = true
+	}
+	if variant == 9 {
+		// the first phase of every connection ends INSIDE the 4-byte length field of a message of 256 bytes or
+		// more, the other connections then read complete messages: what a connection makes of its bytes
+		// must not depend on what the others read in between (C03, C15)
+		c.Extra["sched"] = "seq"
+	}
+	if variant == 8 {
+		// several logins of the SAME role overlap: the validator of connection 0 (right password) is still
+		// busy (held) while the others - some with a wrong password and a query pipelined behind it - arrive;
+		// every connection's verdict must be its own (C01)
+		c.Auth = true
+		c.Extra["sched"] = "seq"
+		c.Extra["hold"] = "1"
 	}
 	if variant == 7 {
 		// connection 0 is a CancelRequest (ends at once, nothing is served); the connections that follow
@@ -1760,6 +1783,19 @@ func genMulti(r *rand.Rand, id string) *Case {
 	for i := 0; i < k; i++ {
 		in := startup(196608, [][2]string{{"user", users[i]}, {"database", "db" + strconv.Itoa(i)}}, true)
 		pc := -1
+		if variant == 8 {
+			in = startup(196608, [][2]string{{"user", users[0]}, {"database", "db0"}}, true)
+			pw := "okhold-" + users[0]
+			if i > 0 {
+				pw = pick(r, []string{"wrong-" + users[0], "fail-" + users[0], "ok-" + users[0], "", "okhold-" + users[0]})
+			}
+			in = append(in, msgPassword(pw)...)
+			in = append(in, msgQuery(probeQuery("first"+strconv.Itoa(i), 0))...)
+			in = append(in, msgQuery(probeQuery("last"+strconv.Itoa(i), 0))...)
+			ins = append(ins, hex.EncodeToString(in))
+			pcs = append(pcs, strconv.Itoa(1<<30))
+			continue
+		}
 		if variant == 7 && i == 0 {
 			in = append(be32(16), append(be32(80877102), randBytes(r, 8, false)...)...)
 			ins = append(ins, hex.EncodeToString(in))
@@ -1771,6 +1807,10 @@ func genMulti(r *rand.Rand, id string) *Case {
 				pc = len(in) // phase 1 ends between the startup packet and the password message
 			}
 			in = append(in, msgPassword("ok-"+users[i])...)
+		}
+		if variant == 9 {
+			pc = len(in) + 1 + 1 + r.Intn(3) // type byte + 1..3 bytes of the length
+			in = append(in, msgQuery(probeQuery("big"+strconv.Itoa(i), []int{300, 300 + r.Intn(300), 300 + r.Intn(70000)}[r.Intn(3)]))...)
 		}
 		in = append(in, msgQuery(probeQuery("first"+strconv.Itoa(i), 0))...)
 		if variant == 2 && i == 0 {
@@ -2118,3 +2158,56 @@ func genValues(r *rand.Rand, id string) *Case {
 }
 
 func init() { generators["values"] = genValues }
+
+// genWfOnce (C02): "a failed or abandoned write never leaves partial bytes that corrupt the next message".
+// Sessions of the values / simple / paramsd / session campaigns, biased towards messages above 64 KiB, in which
+// exactly ONE Write call of the transport fails (`wf1=k`) and the connection keeps working afterwards. The
+// model has no transient faults (its transport fails for good): `nomodel=1`, only the strict backend grammar
+// is evaluated, on everything the server managed to write.
+func genWfOnce(r *rand.Rand, id string) *Case {
+	var c *Case
+	switch k := r.Intn(10); {
+	case k < 4:
+		// one statement returning rows with values above 64 KiB, then a second query on the same connection
+		c = baseCase(id, "wfonce")
+		c.L = 1 << 21
+		in := plainStartup("u")
+		ncols := 1 + r.Intn(3)
+		cols := make([]string, ncols)
+		for i := range cols {
+			cols[i] = "t"
+		}
+		var ops []string
+		nrows := 1 + r.Intn(3)
+		for j := 0; j < nrows; j++ {
+			vals := make([]string, ncols)
+			for i := range vals {
+				n := []int{10, 61, 64, 65531, 65536, 70000, 131072, 200000}[r.Intn(8)]
+				vals[i] = "t" + hex.EncodeToString(bytes.Repeat([]byte{byte('a' + r.Intn(26))}, n))
+			}
+			ops = append(ops, "r:"+strings.Join(vals, ",")+"?")
+		}
+		ops = append(ops, "c:"+hxs("SELECT "+strconv.Itoa(nrows)))
+		in = append(in, msgQuery(strings.Join(cols, ",")+"//"+strings.Join(ops, ";")+"/ok")...)
+		in = append(in, msgQuery(probeQuery("after", 0))...)
+		c.In = in
+	case k < 6:
+		c = genValues(r, id)
+	case k < 8:
+		c = generators["simple"](r, id)
+	case k < 9:
+		c = generators["paramsd"](r, id)
+	default:
+		c = genSession(r, id)
+	}
+	c.Camp = "wfonce"
+	c.WF = -1
+	c.Extra["wf1"] = strconv.Itoa(r.Intn(14))
+	c.Extra["nomodel"] = "1"
+	for _, k := range []string{"xp", "xend", "xev"} {
+		delete(c.Extra, k)
+	}
+	return c
+}
+
+func init() { generators["wfonce"] = genWfOnce }
